@@ -43,3 +43,20 @@ Example C08_example_u8 :
   let p := run c init_pool [CtorN 0 255] in
   snd (fst (step c p (EmplaceBack 0 (AExt 9)))) = RThrew OverflowError /\ snd (fst (step c p (PopBack 0))) = ROk.
 Proof. vm_compute. split; reflexivity. Qed.
+
+(* The capacity test of the growing policy is the code's: [adjust] (throwing exactly when the growth policy / the fixed capacity
+   refuses) is proved equal (Gen/BaseTV_<S>.v) to adjustCapacity(uintmax_t) of DynamicVector / StaticVector as regenerated on
+   every run from clang's AST, composed with the regenerated grow / SafeNextCapacity / ExceptionGrowingPolicy::Check. *)
+From Amc.Gen Require BaseTV_u8 BaseTV_u32.
+Theorem C08_adjust_is_the_regenerated_one_smallvector_u8 :
+  forall c, cM c = 255 -> forall st need, fl c = FSV -> Words.WInv 255 (cN c) st -> 0 <= need < 2 ^ 63 -> 255 < 2 ^ 62 ->
+    mk_wrap c = wrap_u8 -> BaseTV_u8.one c (Base_u8.sv_adjustCapacity st need) = BaseTV_u8.res1 (adjust c st need).
+Proof. exact BaseTV_u8.sv_adjust_tv. Qed.
+Theorem C08_adjust_is_the_regenerated_one_vector_u8 :
+  forall c, cM c = 255 -> forall st need, fl c = FVec -> BaseTV_u8.InRange st -> 0 <= need < 2 ^ 63 -> 255 < 2 ^ 62 ->
+    mk_wrap c = wrap_u8 -> BaseTV_u8.one c (Base_u8.std_adjustCapacity st need) = BaseTV_u8.res1 (adjust c st need).
+Proof. exact BaseTV_u8.std_adjust_tv. Qed.
+Theorem C08_adjust_is_the_regenerated_one_fixedcapacity :
+  forall c st need, fl c = FFCV -> BaseTV_u8.InRange st ->
+    BaseTV_u8.one c (Base_u8.fcv_adjustCapacity st need) = BaseTV_u8.res1 (adjust c st need).
+Proof. exact BaseTV_u8.fcv_adjust_tv. Qed.
